@@ -15,7 +15,7 @@ func init() {
 	register(&propDef{
 		ID: "C07",
 		Meta: propMeta{
-			Explanation: "Decides that the key/certificate pairing guards are present on every path: (R07a) every store of a private key into a certloader.Certificate that has a leaf, and into an openpgp.Entity, is guarded by x509tools.SameKey(...)==true whose arguments are the stored key and that certificate's/entity's public key (frozen exceptions: PKCS#12 decoding, key import/generation commands, the clear-sign digest stub); SameKey itself returns true only from comparisons of both keys' material (RSA N and E, ECDSA X and Y); (R07b) the certificate handed to Signer.Sign is the one signinit.Init -> InitKey -> LoadTokenCertificates built from the key that Token.GetKey returned for the requested name; (R07c) the PKCS#7 builder signs, and both XML-DSig entry points reach finishSignature, only after len(certs)>=1 and SameKey(signer.Public(), certs[0].PublicKey)==true, the emitted certificates/issuer are those same certs, and finishSignature has no other caller; (R07d) every function that signs with X.Signer() embeds certificates / public keys of the same X; (R07e) every construction of a Certificate puts the leaf at index 0 of Certificates and Chain() emits the leaf first. R07a also covers PGP subkeys (the public key compared must be the one of the very entity or subkey that receives the private key); (R07f) the key cache returns a key taken from shared state (directly or through a helper) only to a request that pinned no key id or the same id, and a miss returns the key fetched by this very call. (R07h) in the worker's RPC handler, which pins the caller's key id into the request context with token.WithKeyID, every GetKey / SignContext runs under a context all of whose ancestors are that pinned context or the context it was put on, and the pinned one is among them; (R07g) no function returns the bytes of a bytes.Buffer that is a field of a longer-lived object (shared with C14 R14h): the encoded worker request that names the key and carries the digest is the request's own memory, so a retry cannot send another request's key.",
+			Explanation: "Decides that the key/certificate pairing guards are present on every path: (R07a) every store of a private key into a certloader.Certificate that has a leaf, and into an openpgp.Entity, is guarded by x509tools.SameKey(...)==true whose arguments are the stored key and that certificate's/entity's public key (frozen exceptions: PKCS#12 decoding, key import/generation commands, the clear-sign digest stub); SameKey itself returns true only from comparisons of both keys' material (RSA N and E, ECDSA X and Y); (R07b) the certificate handed to Signer.Sign is the one signinit.Init -> InitKey -> LoadTokenCertificates built from the key that Token.GetKey returned for the requested name; (R07c) the PKCS#7 builder signs, and both XML-DSig entry points reach finishSignature, only after len(certs)>=1 and SameKey(signer.Public(), certs[0].PublicKey)==true, the emitted certificates/issuer are those same certs, and finishSignature has no other caller; (R07d) every function that signs with X.Signer() embeds certificates / public keys of the same X; (R07e) every construction of a Certificate puts the leaf at index 0 of Certificates and Chain() emits the leaf first. R07a also covers PGP subkeys (the public key compared must be the one of the very entity or subkey that receives the private key); (R07f) the key cache returns a key taken from shared state (directly or through a helper) only to a request that pinned no key id or the same id, and a miss returns the key fetched by this very call. (R07i) the asn1 tags of pkcs7.SignedData.Certificates and CRLs carry no `set`, so encoding/asn1 does not sort the lists and the emitted chain begins with the leaf the builder checked; (R07h) in the worker's RPC handler, which pins the caller's key id into the request context with token.WithKeyID, every GetKey / SignContext runs under a context all of whose ancestors are that pinned context or the context it was put on, and the pinned one is among them; (R07g) no function returns the bytes of a bytes.Buffer that is a field of a longer-lived object (shared with C14 R14h): the encoded worker request that names the key and carries the digest is the request's own memory, so a retry cannot send another request's key.",
 			NotDecided:  "that a token's GetKey returns the key it was asked for (HSM / cloud behaviour) and the cryptographic validity of emitted values.",
 			Assumptions: []string{"(*big.Int).Cmp / key Equal methods compare key material"},
 		},
@@ -169,6 +169,11 @@ func runC07(c *Ctx) {
 	// ---- R07e leaf first
 	c07LeafFirst(c, re)
 
+	// ---- R07i the emitted certificate list keeps the builder's order
+	c.Rule("R07i", "the certificate and CRL lists of SignedData are marshalled in the order given (no `set` tag): the leaf stays first (shared with C16 R16j)", 2)
+	for _, f := range cmsListsKeepOrder(c.P) {
+		c.Check(f.OK, "R07i", f.Key, f.Pos, "", f.Detail)
+	}
 	// ---- R07f the key cache hands out only the key that was asked for
 	c.Rule("R07f", "the key cache returns a key taken from shared state only un-pinned or id-equal; a miss returns the key fetched by this very call", 3)
 	keyCacheRule(c, "R07f")
